@@ -187,55 +187,55 @@ func (r *W3Run) hostile(h HReq, good *dsInfo) (panicked string, err error) {
 		return out
 	}
 	call := func(ctx context.Context, n *simNode) (res interface{}, err error) {
-			defer func() {
-				if rec := recover(); rec != nil {
-					panicked = fmt.Sprintf("%v | %s | %s", rec, topFrame(debug.Stack()), trimStack(debug.Stack()))
-				}
-			}()
-			switch h.Rpc {
-			case "Insert":
-				return n.svcData.Insert(ctx, &pb.InsertRequest{DatasetId: dsid, Id: item, Value: mkVec(h.Vec, good.dim, h.Seq), Metadata: mkMeta(h.Meta)})
-			case "Update":
-				return n.svcData.Update(ctx, &pb.UpdateRequest{DatasetId: dsid, Id: item, Value: mkVec(h.Vec, good.dim, h.Seq), Metadata: mkMeta(h.Meta)})
-			case "Remove":
-				return n.svcData.Remove(ctx, &pb.RemoveRequest{DatasetId: dsid, Id: item})
-			case "BatchInsert":
-				return n.svcData.BatchInsert(ctx, &pb.BatchRequest{DatasetId: dsid, Items: items()})
-			case "BatchUpdate":
-				return n.svcData.BatchUpdate(ctx, &pb.BatchRequest{DatasetId: dsid, Items: items()})
-			case "BatchRemove":
-				return n.svcData.BatchRemove(ctx, &pb.BatchRequest{DatasetId: dsid, Items: items()})
-			case "PartitionBatchInsert":
-				return n.svcData.PartitionBatchInsert(ctx, &pb.PartitionBatchRequest{DatasetId: dsid, PartitionId: partId, Items: items()})
-			case "PartitionBatchUpdate":
-				return n.svcData.PartitionBatchUpdate(ctx, &pb.PartitionBatchRequest{DatasetId: dsid, PartitionId: partId, Items: items()})
-			case "PartitionBatchRemove":
-				return n.svcData.PartitionBatchRemove(ctx, &pb.PartitionBatchRequest{DatasetId: dsid, PartitionId: partId, Items: items()})
-			case "PartitionInfo":
-				return n.svcData.PartitionInfo(ctx, &pb.PartitionInfoRequest{DatasetId: dsid, PartitionId: partId})
-			case "Search":
-				fs := &fakeServerStream{ctx: ctx}
-				return nil, n.svcSrch.Search(&pb.SearchRequest{DatasetId: dsid, Query: mkVec(h.Vec, good.dim, h.Seq), K: h.K}, srvStreamItems{fs})
-			case "SearchPartitions":
-				fs := &fakeServerStream{ctx: ctx}
-				return nil, n.svcSrch.SearchPartitions(&pb.SearchPartitionsRequest{DatasetId: dsid, PartitionIds: [][]byte{partId}, Query: mkVec(h.Vec, good.dim, h.Seq), K: h.K}, srvStreamItems{fs})
-			case "Create":
-				return n.svcDM.Create(ctx, &pb.Dataset{Dimension: h.Dim, Space: pb.Space(h.Space), PartitionCount: h.P, ReplicationFactor: h.R})
-			case "Get":
-				return n.svcDM.Get(ctx, &pb.GetDatasetRequest{DatasetId: dsid, WithSize: h.Dup})
-			case "Delete":
-				if h.DsId == "good" {
-					dsid = idOf(99998).Bytes() // never delete the canary dataset
-				}
-				return n.svcDM.Delete(ctx, &pb.UUIDRequest{Id: dsid})
-			case "GetDatasetSize":
-				return n.svcDM.GetDatasetSize(ctx, &pb.GetDatasetRequest{DatasetId: dsid})
-			case "List":
-				fs := &fakeServerStream{ctx: ctx}
-				return nil, n.svcDM.List(&pb.ListDatasetsRequest{WithSize: h.Dup}, srvStreamDatasets{fs})
+		defer func() {
+			if rec := recover(); rec != nil {
+				panicked = fmt.Sprintf("%v | %s | %s", rec, topFrame(debug.Stack()), trimStack(debug.Stack()))
 			}
-			return nil, nil
+		}()
+		switch h.Rpc {
+		case "Insert":
+			return n.svcData.Insert(ctx, &pb.InsertRequest{DatasetId: dsid, Id: item, Value: mkVec(h.Vec, good.dim, h.Seq), Metadata: mkMeta(h.Meta)})
+		case "Update":
+			return n.svcData.Update(ctx, &pb.UpdateRequest{DatasetId: dsid, Id: item, Value: mkVec(h.Vec, good.dim, h.Seq), Metadata: mkMeta(h.Meta)})
+		case "Remove":
+			return n.svcData.Remove(ctx, &pb.RemoveRequest{DatasetId: dsid, Id: item})
+		case "BatchInsert":
+			return n.svcData.BatchInsert(ctx, &pb.BatchRequest{DatasetId: dsid, Items: items()})
+		case "BatchUpdate":
+			return n.svcData.BatchUpdate(ctx, &pb.BatchRequest{DatasetId: dsid, Items: items()})
+		case "BatchRemove":
+			return n.svcData.BatchRemove(ctx, &pb.BatchRequest{DatasetId: dsid, Items: items()})
+		case "PartitionBatchInsert":
+			return n.svcData.PartitionBatchInsert(ctx, &pb.PartitionBatchRequest{DatasetId: dsid, PartitionId: partId, Items: items()})
+		case "PartitionBatchUpdate":
+			return n.svcData.PartitionBatchUpdate(ctx, &pb.PartitionBatchRequest{DatasetId: dsid, PartitionId: partId, Items: items()})
+		case "PartitionBatchRemove":
+			return n.svcData.PartitionBatchRemove(ctx, &pb.PartitionBatchRequest{DatasetId: dsid, PartitionId: partId, Items: items()})
+		case "PartitionInfo":
+			return n.svcData.PartitionInfo(ctx, &pb.PartitionInfoRequest{DatasetId: dsid, PartitionId: partId})
+		case "Search":
+			fs := &fakeServerStream{ctx: ctx}
+			return nil, n.svcSrch.Search(&pb.SearchRequest{DatasetId: dsid, Query: mkVec(h.Vec, good.dim, h.Seq), K: h.K}, srvStreamItems{fs})
+		case "SearchPartitions":
+			fs := &fakeServerStream{ctx: ctx}
+			return nil, n.svcSrch.SearchPartitions(&pb.SearchPartitionsRequest{DatasetId: dsid, PartitionIds: [][]byte{partId}, Query: mkVec(h.Vec, good.dim, h.Seq), K: h.K}, srvStreamItems{fs})
+		case "Create":
+			return n.svcDM.Create(ctx, &pb.Dataset{Dimension: h.Dim, Space: pb.Space(h.Space), PartitionCount: h.P, ReplicationFactor: h.R})
+		case "Get":
+			return n.svcDM.Get(ctx, &pb.GetDatasetRequest{DatasetId: dsid, WithSize: h.Dup})
+		case "Delete":
+			if h.DsId == "good" {
+				dsid = idOf(99998).Bytes() // never delete the canary dataset
+			}
+			return n.svcDM.Delete(ctx, &pb.UUIDRequest{Id: dsid})
+		case "GetDatasetSize":
+			return n.svcDM.GetDatasetSize(ctx, &pb.GetDatasetRequest{DatasetId: dsid})
+		case "List":
+			fs := &fakeServerStream{ctx: ctx}
+			return nil, n.svcDM.List(&pb.ListDatasetsRequest{WithSize: h.Dup}, srvStreamDatasets{fs})
 		}
+		return nil, nil
+	}
 	label := fmt.Sprintf("hostile %s ds=%s id=%s vec=%s meta=%s k=%d items=%d bad=%d part=%s dim=%d space=%d P=%d R=%d level=%d burst=%d", h.Rpc, h.DsId, h.ItemId, h.Vec, h.Meta, h.K, h.Items, h.BadIds, h.Part, h.Dim, h.Space, h.P, h.R, h.Level, h.Burst)
 	op := s.client(n, label, 20*time.Second, call)
 	extra := []*clientOp{}
